@@ -145,6 +145,7 @@ type cpeer struct {
 	cc     *ccrdt.Consensus
 	store  *ctlDS
 	trk    *tracker
+	ps     *pubsub.PubSub
 	cancel context.CancelFunc
 }
 
@@ -160,6 +161,7 @@ type peerCfg struct {
 	idOf      func(int) string // identity seed of peer i (for trusted)
 	clusterNm string
 	blocked   []int // peers this host refuses any connection with
+	store     *ctlDS // restart on this datastore instead of a fresh one
 }
 
 func privKey(seed string) crypto.PrivKey {
@@ -237,7 +239,10 @@ func newPeer(pc peerCfg, vt *valTable) (*cpeer, error) {
 	if pc.rebcast > 0 {
 		cfg.RebroadcastInterval = pc.rebcast
 	}
-	store := newCtlDS(inmem.New(), cfg.DatastoreNamespace)
+	store := pc.store
+	if store == nil {
+		store = newCtlDS(inmem.New(), cfg.DatastoreNamespace)
+	}
 	cc, err := ccrdt.New(rh, idht, psub, cfg, store)
 	if err != nil {
 		h.Close()
@@ -261,7 +266,7 @@ func newPeer(pc peerCfg, vt *valTable) (*cpeer, error) {
 		cancel()
 		return nil, fmt.Errorf("consensus not ready")
 	}
-	return &cpeer{h: rh, cc: cc, store: store, trk: trk, cancel: cancel}, nil
+	return &cpeer{h: rh, cc: cc, store: store, trk: trk, ps: psub, cancel: cancel}, nil
 }
 
 func (p *cpeer) close() {
